@@ -679,7 +679,120 @@ def _c09_account(run, acc, j, what):
                               "replay": {"n": j["n"], "cap": j["cap"], "calls": w["calls"], "cut": w["observer_event"]} if w else None, "sig": "truncload"})
 
 
+VISIBLE_KEYS = ("alive", "kids", "dat")
+
+
+def _norm_event(e, observable_only=True):
+    """what must be identical across replays and configurations: the call, its return value, and what every handle shows"""
+    if e["op"] in ("reset", "end"):
+        return None
+    x = {k: v for k, v in e.items() if k not in ("obs", "t", "same", "text", "direct")}
+    if e["op"] == "new":
+        x.pop("n", None)
+        x.pop("cap", None)
+    if "text" in e and e.get("ret") == "err":
+        x["text"] = e["text"]                        # error texts are results too (merge names the missed vertices)
+    obs = []
+    for o in e.get("obs", []):
+        if "broken" in o:
+            obs.append({"h": o["h"], "broken": True})
+        else:
+            keys = VISIBLE_KEYS if observable_only else VISIBLE_KEYS + ("unread", "groups", "nextv")
+            obs.append({"h": o["h"], **{k: o[k] for k in keys}})
+    x["obs"] = sorted(obs, key=lambda o: o["h"])
+    return x
+
+
+def _load_norm(path):
+    res = []
+    with open(path) as f:
+        for line in f:
+            e = json.loads(line)
+            ne = _norm_event(e)
+            if ne is not None:
+                res.append((ne, _norm_event(e, False)))
+    return res
+
+
+def plan_c19(run, prop, tier):
+    """C19: E1 two-instance product on the model (N and capacity only occur in guards); differential replay on the code: the
+    same call sequence, recorded in the smallest configuration and validated by Trace.tla (so it is inside the limits of every
+    larger one), is replayed three times there (separate processes) and once in each larger configuration; the complete
+    observation logs must be identical (enumeration order of kids(), ids from next_id/merge/scripts, error texts included)."""
+    acc = Acc()
+    s = vlib.seed()
+    for (ca, cb, na, nb) in ([(3, 5, 1, 2)] if tier == "quick" else [(3, 5, 1, 2), (3, 4, 2, 1), (4, 4, 1, 2)]):
+        r = vlib.model_check(run, "MC_Indep", f"SPECIFICATION Spec\nCONSTANTS CapA = {ca} CapB = {cb} NA = {na} NB = {nb} Labels = {{\"a\", \"b\"}} "
+                             "Vals = {\"x\"}\nINVARIANT SameAnswers\nCHECK_DEADLOCK FALSE\n", timeout=3000)
+        acc.add_e1(f"MC_Indep[cap {ca} vs {cb}, N {na} vs {nb}]: SameAnswers", r)
+    steps = 1200 if tier == "quick" else 4000
+    bases = [dict(profile="mixed", n=2, cap=12, steps=steps, seed=s * 100 + 51, window=10),
+             dict(profile="twin", n=2, cap=12, steps=steps, seed=s * 100 + 52, window=9),
+             dict(profile="slice", n=2, cap=12, steps=steps // 2, seed=s * 100 + 53, window=9),
+             dict(profile="merge", n=2, cap=20, steps=steps // 2, seed=s * 100 + 54, window=9),
+             dict(profile="mixed", n=1, cap=6, steps=steps // 2, seed=s * 100 + 55, window=6)]
+    if tier == "thorough":
+        bases += [dict(profile=p, n=n, cap=c, steps=steps, seed=s * 1000 + 500 + i, window=w)
+                  for i, (p, n, c, w) in enumerate([("mixed", 3, 16, 12), ("twin", 1, 8, 7), ("slice", 3, 14, 10), ("merge", 3, 24, 10), ("groups14", 2, 40, 10), ("big16", 2, 20, 18)])]
+    others = {1: [(2, 6), (16, 256)], 2: [(2, 13), (3, 12), (4, 64), (16, 256)], 3: [(4, 17), (8, 64), (16, 256)]}
+    if tier == "quick":
+        others = {1: [(16, 256)], 2: [(3, 13), (16, 256)], 3: [(16, 256)]}
+    compared = 0
+    for b in bases:
+        base_trace = run.fresh("base", ".ndjson")
+        vlib.sh([H, "drive", "--out", base_trace, "--scratch", run.dir, "--plan", json.dumps([b])], timeout=1200)
+        v = vlib.judge(run, base_trace, b["n"], timeout=3000)
+        acc.traces += 1
+        if v.get("voids"):
+            acc.notes.setdefault("void_base_traces", []).append({"profile": b["profile"], "from_line": v["voids"][0][1]})
+        for (t, line, prop_, what) in v["fails"]:
+            acc.fails.append({"prop": prop_, "what": what, "source": f"base trace {b['profile']}", "replay": None, "sig": ""})
+        evs = vlib.split_traces(base_trace).get(1, [])
+        if v.get("voids"):
+            evs = [(ln, e) for (ln, e) in evs if ln < v["voids"][0][1]]     # only the part inside the limits is compared
+        calls = calls_of_trace(evs)
+        base_norm = _load_norm(base_trace)[:len(calls)]
+        configs = [(b["n"], b["cap"], "same configuration, new process")] * 2 + [(n, max(c, b["cap"] + 1), "other configuration") for (n, c) in others.get(b["n"], [])]
+        for (n, cap, kind) in configs:
+            cs = []
+            for c in calls:
+                c = dict(c)
+                if c["op"] == "new":
+                    c["n"], c["cap"] = n, cap
+                cs.append(c)
+            cf = run.fresh("calls", ".json")
+            json.dump({"n": n, "cap": cap, "calls": cs}, open(cf, "w"))
+            out = run.fresh("replay", ".ndjson")
+            vlib.sh([H, "record", "--calls", cf, "--out", out, "--scratch", run.dir], timeout=1200)
+            got = _load_norm(out)
+            compared += 1
+            acc.transitions += len(got)
+            diff_at = next((i for i in range(max(len(got), len(base_norm))) if i >= len(got) or i >= len(base_norm) or got[i][0] != base_norm[i][0]), None)
+            lat_at = next((i for i in range(min(len(got), len(base_norm))) if got[i][1] != base_norm[i][1]), None)
+            rec = {"profile": b["profile"], "base": [b["n"], b["cap"]], "replayed_in": [n, cap], "kind": kind, "events_compared": len(base_norm),
+                   "first_visible_difference": diff_at, "first_hook_level_difference": lat_at}
+            acc.e3.append(rec)
+            if diff_at is not None:
+                acc.fails.append({"prop": "C19", "what": f"{kind}: N={n} cap={cap} differs from N={b['n']} cap={b['cap']} at call {diff_at + 1} "
+                                                         f"({json.dumps(cs[diff_at])[:120] if diff_at < len(cs) else 'length'})",
+                                  "source": f"differential replay, profile {b['profile']}",
+                                  "replay": {"kind": "diff", "a": {"n": b["n"], "cap": b["cap"]}, "b": {"n": n, "cap": cap}, "calls": cs[:diff_at + 1]}, "sig": "diff"})
+            if tier == "thorough" or kind == "other configuration":
+                v2 = vlib.judge(run, out, n, timeout=3000)
+                acc.traces += 1
+                for (t, line, prop_, what) in v2["fails"]:
+                    if prop_.startswith("X-"):
+                        acc.notes.setdefault("exactness_notes", []).append({"lens": prop_, "config": [n, cap], "what": what})
+        if not acc.samples_has("E3"):
+            acc.samples.append({"engine": "E3", "profile": b["profile"], "first_calls": calls[:10]})
+    acc.notes["replays_compared"] = compared
+    if compared == 0:
+        raise ToolError("vacuity: nothing was replayed")
+    return acc
+
+
 PLANS = {p: plan_gc for p in ("C01", "C02", "C03", "C04", "C06")}
+PLANS["C19"] = plan_c19
 PLANS["C09"] = plan_c09
 PLANS["C14"] = plan_script
 PLANS["C18"] = plan_export
@@ -751,6 +864,25 @@ def finish(run, prop, tier, acc, wall):
 def replay(run, prop, path):
     j = json.load(open(path))
     rp = j["replay"]
+    if rp.get("kind") == "diff":
+        outs = []
+        for cfgk in ("a", "a", "b"):
+            cs = []
+            for c in rp["calls"]:
+                c = dict(c)
+                if c["op"] == "new":
+                    c["n"], c["cap"] = rp[cfgk]["n"], rp[cfgk]["cap"]
+                cs.append(c)
+            cf = run.fresh("calls", ".json")
+            json.dump({"n": rp[cfgk]["n"], "cap": rp[cfgk]["cap"], "calls": cs}, open(cf, "w"))
+            out = run.fresh("replay", ".ndjson")
+            vlib.sh([H, "record", "--calls", cf, "--out", out, "--scratch", run.dir])
+            outs.append([x[0] for x in _load_norm(out)])
+        if outs[0] != outs[1] or outs[0] != outs[2]:
+            print(f"VIOLATION property={prop} replay={path}")
+            return 1
+        print(f"replay: property {prop} holds on this history now")
+        return 0
     if rp.get("kind") == "label":
         r = rp["record"]
         vec = run.fresh("vec", ".out")
